@@ -1,6 +1,6 @@
 """property id -> check function"""
 import json
-from . import p_fs, p_plan
+from . import p_fs, p_plan, p_names
 
 CHECKS = {
     "C01": p_plan.check_c01,
@@ -9,6 +9,7 @@ CHECKS = {
     "C05": p_plan.check_c05,
     "C09": p_plan.check_c09,
     "C10": p_plan.check_c10,
+    "C12": p_names.check_c12,
     "C15": p_fs.check_c15,
     "C16": p_fs.check_c16,
 }
